@@ -70,3 +70,21 @@ def snapshot(a):
             except TypeError:
                 out[k] = ("val", repr(v))
     return out
+
+
+def scribble(a):
+    """overwrite every public numpy array of an Atoms object in place (used to detect arrays shared with another object)"""
+    for k, v in vars(a).items():
+        if isinstance(v, np.ndarray) and v.size:
+            try:
+                if v.dtype.kind in "fc":
+                    v += 1234.5
+                elif v.dtype.kind in "iu":
+                    v += 7
+                elif v.dtype.kind in "UO":
+                    v[...] = "scribbled"
+            except Exception:
+                pass
+        elif isinstance(v, list) and v and isinstance(v[0], str):
+            for i in range(len(v)):
+                v[i] = "scribbled"
